@@ -202,9 +202,35 @@ Definition loop_end_reset (m : state) : state :=
   let m := Request_Reset "Request" m in
   Response_Reset "Response" m.
 
+(* ---- streaming.go: the pooled requestStream object ---- *)
+(* requestStreamPool is shared by all requests of all connections; what one user leaves in an object
+   is what the next user's stream starts with *)
+Definition rs_fields : list string := [
+  "requestStream.header"; "requestStream.prefetchedBytes"; "requestStream.reader"; "requestStream.totalBytesRead";
+  "requestStream.chunkLeft"; "requestStream.eof"; "requestStream.err"; "requestStream.contentLength" ].
+
+Definition releaseRequestStream_m (m : state) : state :=
+  let m := clr "requestStream.prefetchedBytes" m in
+  let m := clr "requestStream.totalBytesRead" m in
+  let m := clr "requestStream.chunkLeft" m in
+  let m := clr "requestStream.eof" m in
+  let m := clr "requestStream.err" m in
+  let m := clr "requestStream.contentLength" m in
+  let m := clr "requestStream.reader" m in
+  clr "requestStream.header" m.
+
+(* acquireRequestStream assigns four fields (values of the new request) and trusts the others *)
+Definition rs_assigned : list string := [
+  "requestStream.prefetchedBytes"; "requestStream.reader"; "requestStream.header"; "requestStream.contentLength" ].
+Definition acquireRequestStream_m (v : string -> Z) (m : state) : state :=
+  let m := upd "requestStream.prefetchedBytes" (v "requestStream.prefetchedBytes") m in
+  let m := upd "requestStream.reader" (v "requestStream.reader") m in
+  let m := upd "requestStream.header" (v "requestStream.header") m in
+  upd "requestStream.contentLength" (v "requestStream.contentLength") m.
+
 (* which reset the harness exercised on a dirtied real object *)
 Inductive rkind := KCtxReset | KRequestReset | KResponseReset | KRequestResetSkipHeader
-                 | KRequestHeaderReset | KResponseHeaderReset | KURIReset | KArgsReset.
+                 | KRequestHeaderReset | KResponseHeaderReset | KURIReset | KArgsReset | KRsRelease.
 
 (* prefix of the object's fields in `all_fields` naming and the model of the function *)
 Definition rk_prefix (k : rkind) : string :=
@@ -216,6 +242,7 @@ Definition rk_prefix (k : rkind) : string :=
   | KResponseHeaderReset => "Response.Header"
   | KURIReset => "Request.uri"
   | KArgsReset => "Request.postArgs"
+  | KRsRelease => "requestStream"
   end.
 
 Definition rk_apply (k : rkind) (m : state) : state :=
@@ -228,6 +255,7 @@ Definition rk_apply (k : rkind) (m : state) : state :=
   | KResponseHeaderReset => ResponseHeader_Reset "Response.Header" m
   | KURIReset => URI_Reset "Request.uri" m
   | KArgsReset => Args_Reset "Request.postArgs" m
+  | KRsRelease => releaseRequestStream_m m
   end.
 
 Definition dirty : state := fun _ => 1.
@@ -238,7 +266,8 @@ Definition has_prefix (p f : string) : bool :=
   | "" => true
   | _ => String.prefix (p ++ ".") f
   end.
-Definition rk_fields (k : rkind) : list string := filter (has_prefix (rk_prefix k)) all_fields.
+Definition rk_fields (k : rkind) : list string :=
+  match k with KRsRelease => rs_fields | _ => filter (has_prefix (rk_prefix k)) all_fields end.
 
 (* model: is f zero after the reset of kind k applied to an all-dirty object *)
 Definition zero_after (k : rkind) (f : string) : bool := rk_apply k dirty f =? 0.
